@@ -83,9 +83,9 @@ def corpus():
     ]
 
 
-def _case(ctx, clauses, qname, qargs, rng, counters):
+def _case(ctx, clauses, qname, qargs, rng, counters, maxans=diff.MAXANS):
     qvars = [V('Q0'), V('Q1'), V('Q2')]
-    d = diff.differential(ctx['real'], clauses, qname, qargs, qvars, minimal=True, rng=rng)
+    d = diff.differential(ctx['real'], clauses, qname, qargs, qvars, minimal=True, rng=rng, maxans=maxans)
     nt = False
     sample = None
     if d['status'] == 'ok':
@@ -108,7 +108,24 @@ def big_table_case(rng):
     return facts, q[0], q[1]
 
 
+def many_answers_case(rng):
+    """queries with hundreds to thousands of answers, all of them compared (the usual cap is 60)"""
+    k = rng.choice([12, 33, 45])
+    cl = [(C('num', I(i)), ('true',)) for i in range(k)]
+    cl.append((C('pairs', V('X'), V('Y')), ('and', ('call', C('num', V('X'))), ('call', C('num', V('Y'))))))
+    cl.append((C('nat', A('z')), ('true',)))
+    cl.append((C('nat', C('s', V('N'))), ('call', C('nat', V('N')))))
+    cl.append((C('upto', V('X'), V('L')), ('and', ('call', C('num', V('X'))), ('call', C('pre', V('L'), L([A('a')] * 12))))))
+    cl.append((C('pre', NIL, V('_')), ('true',)))
+    cl.append((C('pre', L([V('H')], V('T')), L([V('H')], V('R'))), ('call', C('pre', V('T'), V('R')))))
+    q = rng.choice([('pairs', [V('Q0'), V('Q1')]), ('pairs', [V('Q0'), V('Q0')]), ('nat', [V('Q0')]), ('upto', [V('Q0'), V('Q1')])])
+    return cl, q[0], q[1], (150 if q[0] == 'nat' else 2200)
+
+
 def run_case(ctx, seed, idx, tier):
+    if idx >= ctx['exh'] and (idx - ctx["exh"]) % 3000 == 11:
+        clauses, qn, qargs, cap = many_answers_case(random.Random(seed * 37 + idx))
+        return _case(ctx, clauses, qn, qargs, None, {'queries_with_many_answers': 1}, maxans=cap)
     if idx >= ctx['exh'] and (idx - ctx["exh"]) % 3000 == 7:
         clauses, qn, qargs = big_table_case(random.Random(seed * 31 + idx))
         return _case(ctx, clauses, qn, qargs, None, {'big_fact_tables': 1})
